@@ -5,16 +5,38 @@ From Coq Require Import List NArith Bool Arith.
 Import ListNotations.
 From I2N Require Import Model.Graph Proofs.GraphProofs Model.Bridge Proofs.BridgeProofs.
 
-(* a node that joins a class of linked nodes sharing one set of visit registers shares it too *)
-Theorem C09_joined_node_shares_registers : forall s n cls r,
-  ~ In n cls -> NoDup cls -> cls <> [] ->
-  (forall m, In m cls -> refs s m = r) -> (forall m, In m cls -> Bridge.memn m (links s n) = false) ->
-  refs (join s n cls) n = r /\ forall m, In m cls -> refs (join s n cls) m = r.
-Proof. exact join_shares. Qed.
-Print Assumptions C09_joined_node_shares_registers.
+(* a freshly parsed node that is bridged with every node of its form - whatever those shared before -
+   leaves the whole class on one set of visit registers *)
+Theorem C09_joined_class_shares_registers : forall s n a rest,
+  links s n = [] -> ~ In n (a :: rest) ->
+  let s' := join s n (a :: rest) in
+  refs s' n = refs s a /\ forall m, In m (a :: rest) -> refs s' m = refs s a.
+Proof. exact join_unifies. Qed.
+Print Assumptions C09_joined_class_shares_registers.
 
 (* links are symmetric, connect equal forms, and linked nodes hold the same registers *)
 Theorem C09_links_symmetric_and_shared : forall g i j, bridges_ok g = true -> i < length g -> In j (gn_bridged (gnd g i)) ->
   In i (gn_bridged (gnd g j)) /\ gn_form (gnd g j) = gn_form (gnd g i) /\ gn_reg (gnd g j) = gn_reg (gnd g i) /\ i <> j.
 Proof. exact bridges_ok_sound. Qed.
 Print Assumptions C09_links_symmetric_and_shared.
+
+(* the update tool bridges separately parsed worker graphs in all ordered pairs: whatever was bridged inside the
+   worker graphs before (as long as the first node agrees with the nodes it is linked to), the class ends on one
+   set of registers *)
+Theorem C09_all_pairs_class_shares_registers : forall s a rest,
+  (forall y, In y (links s a) -> refs s y = refs s a) ->
+  let s' := all_pairs s (a :: rest) in forall m, In m (a :: rest) -> refs s' m = refs s' a.
+Proof. exact all_pairs_unifies. Qed.
+Print Assumptions C09_all_pairs_class_shares_registers.
+
+(* equivalent copies: a checked graph gives every node of one worker a mirror node for the other worker with mirrored
+   dependencies - exactly unless that worker's restrictions exclude one of the node's vm variants *)
+Theorem C09_copies_mirror_each_other : forall g w1 w2 i,
+  copies_equiv g w1 w2 = true -> i < length g -> gn_worker (gnd g i) = Some w1 ->
+  (mirror g w2 i = None /\ In w2 (gn_excl (gnd g i))) \/
+  (exists j, mirror g w2 i = Some j /\ ~ In w2 (gn_excl (gnd g i)) /\
+             length (gn_parents (gnd g i)) = length (gn_parents (gnd g j)) /\
+             forall p objs, In (p, objs) (gn_parents (gnd g i)) -> gn_root (gnd g p) = true \/
+                exists pj, mirror g w2 p = Some pj /\ In pj (map fst (gn_parents (gnd g j)))).
+Proof. exact copies_equiv_sound. Qed.
+Print Assumptions C09_copies_mirror_each_other.
